@@ -1,4 +1,4 @@
-"""C04 Split is restriction (extension level: DcmMetaExtension.get_subset)."""
+"""C04 Split is restriction: DcmMetaExtension.get_subset (extension level) and NiftiWrapper.split (image level)."""
 from props import extlib
 
 ID = 'C04'
@@ -6,9 +6,17 @@ COQ_PROPS = 'Props/C04.v'
 THEOREMS = ['C04_subset_shape', 'C04_subset_den', 'C04_subset_trailing1_refuted', 'C04_split_pieces', 'C04_split_piece',
             'C04_split_data', 'C04_split_affine']
 ALLOWED_AXIOMS = []
-TRUSTED_BASE = ['hand-written Gallina model coq/Ext/Model.v of get_subset/_copy_slice/_copy_sample/_global_slice_subset/_simplify, '
+TRUSTED_BASE = ['hand-written Gallina model coq/Ext/Split.v of NiftiWrapper.split (data hyperplanes on a C-order flat list, cumulative '
+                'translation update, trailing-dim trimming, extension subset), tied by Ext/CorrSplit.v check_split',
+                'nibabel Nifti1Image/header is a contract: shape, dim_info slice, best affine = sform stored as float32 (dyadic '
+                'geometry with few significant bits is exact), header.copy() keeps dim_info; qform/sform codes, intent etc. not modelled',
+                'hand-written Gallina model coq/Ext/Model.v of get_subset/_copy_slice/_copy_sample/_global_slice_subset/_simplify, '
                 'tied to the code by the correspondence run (Ext/Corr.v check_subset) and by the generated class tables']
-ASSUMPTIONS = ['values: Python == coincides with structural equality (generators never mix 1 / 1.0 / True, no NaN)',
+ASSUMPTIONS = ['image level: the image matches its extension (same shape; slice dim_info equal to the extension slice dim, or absent); '
+               'lookups of pieces are compared with the parent through get_meta with default None (an absent key denotes None)',
+               'C04_split_data states the hyperplane law in (outer, inner) C-order offsets, not in multi-indices',
+               'totality (get_subset / split never raise on the domain) is checked by the correspondence + oracle only, not proved',
+               'values: Python == coincides with structural equality (generators never mix 1 / 1.0 / True, no NaN)',
                'inputs are valid and nondegenerate (no key in a varying class of multiplicity 1); idx < shape[dim]',
                'key order of the result is not modelled (compared as unordered maps)',
                'the random stream excludes trailing-singleton shapes (X,Y,Z,1)/(X,Y,Z,T,1), where the real code raises KeyError '
